@@ -8,7 +8,7 @@ REPO = os.environ.get("VERIF_REPO", "/repo")
 WORK = os.path.join(VERIF, ".work")
 COQ = os.path.join(VERIF, "coq")
 HARNESS = os.path.join(VERIF, "harness")
-EVID = os.path.join(VERIF, "evidence")
+EVID = os.environ.get("VERIF_EVIDENCE_DIR", os.path.join(VERIF, "evidence"))
 REPLAYS = os.path.join(EVID, "replays")
 TARGET = os.path.join(WORK, "target")
 MODEL_DIR = os.path.join(WORK, "model")
